@@ -6,7 +6,7 @@ CONSTANTS
   RUB = TRUE
   MTB = 1
   GCP = 1
-  MaxCrash = 2
+  MaxCrash = 1
   MaxReset = 0
   Dev = {}
 INVARIANTS AbsAnswers AbsTip AbsHeights AbsReset CanRestart NoDead MemCanonical RestartTransparent DiskPages
